@@ -54,7 +54,7 @@ func GenRun(prop, tier string, seed uint64, worker, run int) *RunResult {
 	}
 	if !s.fatal {
 		s.OpIdx = len(g.Ops)
-		s.finish()
+		s.Finish()
 	}
 	res.Ops = g.Ops
 	fill(res, s, prop)
